@@ -14,6 +14,7 @@ import neuroml.build_time_validation as btv
 import neuroml.nml.nml as nml
 
 ORDER = {}
+STR_OK = {}      # id(child handed to an earlier call) -> does str() work on an equal copy
 
 
 def construct(tree):
@@ -236,6 +237,31 @@ def parse_warning(w):
     return [9, msg[:60]]
 
 
+def shallow(o):
+    return {k: (id(v) if not isinstance(v, (str, int, float, bool, type(None))) else repr(v)) for k, v in vars(o).items()}
+
+
+def touch(o, methods):
+    """call read-only helpers ([name, [args]]) on o, exceptions swallowed; report what each left in the instance dictionary"""
+    left = []
+    for name, args in methods:
+        f = getattr(o, name, None)
+        if f is None:
+            continue
+        d0 = shallow(o)
+        try:
+            with warnings.catch_warnings():
+                warnings.simplefilter("ignore")
+                f(*args)
+        except BaseException:  # noqa
+            pass
+        d1 = shallow(o)
+        diff = sorted(k for k in set(d0) | set(d1) if d0.get(k, "<absent>") != d1.get(k, "<absent>"))
+        if diff:
+            left.append([type(o).__name__, name, diff])
+    return left
+
+
 def run_call(parent, call, objs, real_stdout):
     """one add() call; objs = components handed to earlier calls of this case (for re-adding the same object)"""
     r = {}
@@ -265,7 +291,24 @@ def run_call(parent, call, objs, real_stdout):
     objs.append(child)
     if ch["kind"] in ("obj", "same"):
         r["child"] = dump(child)
-        r["str_ok"] = str_ok(child)
+        # whether str() works is asked of a COPY: the harness itself must not put the child through a read-only helper
+        if ch["kind"] == "obj":
+            try:
+                STR_OK[id(child)] = str_ok(construct(ch["tree"]))
+            except Exception:  # noqa
+                STR_OK[id(child)] = False
+        r["str_ok"] = STR_OK.get(id(child), True)
+    # read-only helpers called by the user between the adds: on the new child and / or on the components already stored
+    left = []
+    if call.get("touch") and ch["kind"] in ("obj", "same"):
+        left += touch(child, call["touch"])
+    if call.get("touch_stored"):
+        for v in list(vars(parent).values()):
+            for o in (v if isinstance(v, list) else [v]):
+                if hasattr(o, "member_data_items_"):
+                    left += touch(o, call["touch_stored"])
+    if left:
+        r["touch_left"] = left
     before = dump(parent)
     ids_before = idvec(parent)
     held_before = holds(parent, child) if ch["kind"] in ("obj", "same") else []
